@@ -11,11 +11,13 @@ Inductive fault :=
 | FNone
 | FPoolConflict     (* the NodePool status patch, if one is issued, is rejected with a conflict *)
 | FDeleteErr        (* Delete(nodeClaim), if one is issued, fails *)
-| FStatusLost.      (* the NodeClaim status patch at the end of the reconcile was rejected (reported by the harness only when it fired) *)
+| FStatusLost       (* the NodeClaim status patch at the end of the reconcile was rejected (reported by the harness only when it fired) *)
+| FNodePatch.       (* the Node patch of the registration step was rejected (reported by the harness only when it fired) *)
 
 Definition is_pool_conflict f := match f with FPoolConflict => true | _ => false end.
 Definition is_delete_err f := match f with FDeleteErr => true | _ => false end.
 Definition is_status_lost f := match f with FStatusLost => true | _ => false end.
+Definition is_node_patch f := match f with FNodePatch => true | _ => false end.
 
 (* one launch attempt = one NodeClaim *)
 Record claim := mkClaim {
@@ -93,10 +95,12 @@ Definition liveness (v : variant) (now : Z) (reg_mem : bool) (r : rstate) : rsta
   else reg_check now r.
 
 (* Registration.Reconcile; the flag = Registered is True in memory afterwards *)
-Definition registration (v : variant) (r : rstate) : rstate * bool :=
+Definition registration (v : variant) (node_conflict : bool) (r : rstate) : rstate * bool :=
   let c := r_claim r in
   if c_reg c then (r, true)
   else if c_node c && c_ok c then
+    if node_conflict then (r, false)     (* the Node patch comes first; on a conflict the step is retried later *)
+    else
     let '(o, did, armed') := update_health (r_sys r) true (r_parm r) in
     let s' := step (r_sys r) o in
     let c1 := if did then add_rec c true else c in
@@ -108,7 +112,7 @@ Definition reconcile_claim (v : variant) (f : fault) (now : Z) (s : sys) (c : cl
   if c_gone c then (s, c, [])
   else
     let r0 := mkR s c (is_pool_conflict f) (is_delete_err f) [] in
-    let '(r1, reg_mem) := registration v r0 in
+    let '(r1, reg_mem) := registration v (is_node_patch f) r0 in
     let r2 := liveness v now reg_mem r1 in
     let reg' := if is_status_lost f then c_reg c else reg_mem in
     (r_sys r2, set_reg (r_claim r2) reg', r_trace r2).
